@@ -70,10 +70,7 @@ func runC09(c *Ctx) {
 				c.S.OK("R1", mname+":maker", c.pos(m.Pos()), fmt.Sprintf("%d writes in its closure, all to call-local objects", len(ws)), true)
 			}
 		}
-		for _, an := range m.AnonFuncs {
-			if !isValidatorSig(an.Signature) {
-				continue
-			}
+		for _, an := range validatorBodies(m) {
 			nclos++
 			name := load.FuncName(an)
 			clo := c.reachable([]*ssa.Function{an}, nil)
@@ -84,7 +81,10 @@ func runC09(c *Ctx) {
 				var sh []flow.Root
 				for _, r := range w.Shared() {
 					if p, ok := r.V.(*ssa.Parameter); ok && r.Kind == flow.Param && p.Parent() == an {
-						continue // the call's own attestation / blob
+						if an.Signature.Recv() == nil || len(an.Params) == 0 || p != an.Params[0] {
+							continue // the call's own attestation / blob
+						}
+						// the receiver of a method used as the validation function is shared by all its calls
 					}
 					sh = append(sh, r)
 				}
